@@ -12,6 +12,8 @@ from vlib.ops import Engine, engine_known, flush_excluded
 
 ID = "C02"
 LEVEL = "exploration"
+TECHNIQUE = 'stateful property-based testing; differential oracle index vs brute-force scan, data_id rule via reference model'
+LEVEL_TEXT = 'exploration: op histories over 8 data flavours; after every step every lookup / clone query is compared with a brute-force scan of the reachable nodes, for all ids and data objects ever used'
 RULE = (
     "case = (data flavour in {str, int, tuple, frozen dataclass, DictWrapper around a shared dict, objects keyed by a "
     "Tree(calc_data_id=cb) callback, objects keyed by a Tree subclass overriding calc_data_id, unhashable dicts with "
